@@ -2,7 +2,7 @@
 """dev tool: verify a single contract of a property spec and list the obligations that are not discharged
 usage: PYTHONPATH=/verif:/repo python3-vt tools/one_fn.py Cnn <contract key> [alarm seconds]"""
 import sys, time, signal, collections, importlib
-sys.path.insert(0, '/verif'); sys.path.insert(0, '/repo')
+import os; sys.path.insert(0, '/verif'); sys.path.insert(0, os.environ.get('VERIF_REPO', '/repo'))
 from pyvc import main, solve
 prop, key = sys.argv[1], sys.argv[2]
 m = importlib.import_module(f'specs.{prop.lower()}')
